@@ -25,10 +25,10 @@ def interopClients : List CliCfg :=
     if i % 3 = 0 then { host := b!"localhost", port := 9000, resource := b!"/x?y=1", version := 10 + i }
     else if i % 3 = 1 then
       { host := b!"localhost", port := 9000, resource := b!"/", version := 10 + i, protocols := [b!"a"],
-        factoryProtocols := [b!"a"], origin := b!"http://good.com", headers := [(b!"X-C", b!"1")], useragent := b!"AbV/1" }
+        origin := b!"http://good.com", headers := [(b!"X-C", b!"1")], useragent := b!"AbV/1" }
     else
       { host := b!"h", port := 80, resource := b!"/p", version := 10 + i, protocols := [b!"a", b!"b"],
-        factoryProtocols := [b!"a", b!"b"], accept := .acceptAll,
+        accept := .acceptAll,
         offers := [b!"permessage-deflate; client_no_context_takeover; client_max_window_bits"] })
 
 /-- **interop** (partial: a finite matrix evaluated by the kernel, not the general statement over all header maps —
